@@ -56,7 +56,7 @@ pub const NAMES: [&str; N] = [
     "fixpoint_saturate",        // 42
     "from_radix_chunk",         // 43
     "root_guess_pow2",          // 44
-    "reserved45",               // 45
+    "toom3_negative_eval",      // 45
     "reserved46",               // 46
     "reserved47",               // 47
 ];
